@@ -11,6 +11,26 @@ def seglist(loc):
     return list(loc)
 
 
+def library_self_check(obj=None):
+    """Run modelx's own internal consistency check if this version has one.
+
+    Returns None (passed or not available) or the AssertionError / exception it raised.  The self-check is private API:
+    a tree without it is not a violation of anything.
+    """
+    import modelx as mx
+    target = obj if obj is not None else mx.core.mxsys
+    chk = getattr(target, "_check_sanity", None)
+    if chk is None:
+        return None
+    try:
+        chk()
+    except AssertionError as e:
+        return e
+    except Exception as e:
+        return e
+    return None
+
+
 def norm(v):
     """Normalise a value for comparison and logging."""
     if isinstance(v, (int, float, str, bool)) or v is None:
